@@ -135,6 +135,9 @@ func (e *Engine) VerifyFunc(con *Contract, workdir string, timeoutS int, all boo
 			res.Notes = append(res.Notes, fmt.Sprintf("atcall clause [%s]: no call site of %s matches %q", c.Label, key, c.Site))
 		}
 	}
+	if con.TrustFrame {
+		x.notes = append(x.notes, "the frame (modifies clause) of "+key+" is assumed, not checked (trustframe): only its postconditions are verified")
+	}
 	if con.ImplicitOnly != nil {
 		var ks []string
 		for k := range con.ImplicitOnly {
@@ -251,7 +254,7 @@ func (e *Engine) VerifyFunc(con *Contract, workdir string, timeoutS int, all boo
 				g := x.evalClauseBool(c, penv, st2)
 				x.oblige(st2, "ensures", c.Label, c.Tags, g, pos)
 			}
-			if !con.ModifiesAll {
+			if !con.ModifiesAll && !con.TrustFrame {
 				x.frameObligations(st2, con, pos)
 			}
 		})
